@@ -112,7 +112,7 @@ void rotationReuse(vf::Ctx & c)
   int n = static_cast<int>(c.s.i("n_inits", 2, 5));
   std::vector<Vector3d> angles;
   std::vector<int> readsBefore, overload;
-  bool repeated = false;
+  bool repeated = false, zeroed = false;
   for (int k = 0; k < n; ++k) {
     // a new triple, or exactly the triple of an earlier initialisation (an "unchanged input" shortcut must still
     // notice what happened in between)
@@ -122,12 +122,17 @@ void rotationReuse(vf::Ctx & c)
     } else {
       angles.push_back(genAngles(c, "roll", "pitch", "yaw"));
     }
+    // an axis angle that is exactly zero (an "axis not used" shortcut must still reset what an earlier init left there)
+    int zeroMask = static_cast<int>(c.s.pick("exact_zero_axes", {4, 1, 1, 1, 1}));
+    if (zeroMask >= 1 && zeroMask <= 3) {angles.back()[zeroMask - 1] = 0.0; zeroed = true;}
+    if (zeroMask == 4) {angles.back()[0] = 0.0; angles.back()[1] = 0.0; zeroed = true;}
     overload.push_back(static_cast<int>(c.s.i("init_overload", 0, 1)));
     readsBefore.push_back(static_cast<int>(c.s.i("reads_mask", 0, 31)));   // which accessors are read after this init
   }
   Vector3d v(c.s.r("vx", -100, 100), c.s.r("vy", -100, 100), c.s.r("vz", -100, 100));
   bool startDefault = c.s.flag("start_from_default_object");
   if (repeated) {c.label("same-angles-initialised-again");}
+  if (zeroed) {c.label("exactly-zero-angle-on-an-axis");}
   c.nontrivial(n >= 2);
   c.commit();
 
@@ -303,10 +308,10 @@ void lsCovariance(vf::Ctx & c)
   // each solve must describe that solve (not an earlier one), whatever the observations are
   int p = static_cast<int>(c.s.i("estimate_size", 1, 8));
   int nProblems = static_cast<int>(c.s.i("problems", 1, 3));
-  struct Prob {int m; size_t path; double cond, var; bool precond; size_t yClass; uint64_t seed;};
+  struct Prob {int m; size_t path; double cond, var; bool precond; size_t yClass; uint64_t seed; size_t handOver;};
   std::vector<Prob> probs;
   double condMax = sizeof(S) == 4 ? 30.0 : 1e3;
-  bool anyPrecond = false, zeroY = false;
+  bool anyPrecond = false, zeroY = false, anyHandOver = false;
   for (int q = 0; q < nProblems; ++q) {
     Prob pr;
     pr.m = static_cast<int>(c.s.len("data_size", p, 300));
@@ -317,6 +322,8 @@ void lsCovariance(vf::Ctx & c)
     pr.precond = c.s.flag("diagonal_preconditioner", 3, 4);
     pr.yClass = c.s.pick("observations", {4, 1, 1});  // random, all zero (J^T Y = 0), exactly consistent Y = J x
     pr.seed = c.s.seed("content_seed");
+    pr.handOver = c.s.pick("covariance_read_from", {3, 1, 1});   // the solver itself / a copy of it / a solver it was moved into
+    anyHandOver = anyHandOver || pr.handOver != 0;
     anyPrecond = anyPrecond || pr.precond;
     zeroY = zeroY || pr.yClass == 1;
     probs.push_back(pr);
@@ -325,6 +332,7 @@ void lsCovariance(vf::Ctx & c)
   if (anyPrecond) {c.label("non-identity-preconditioner");}
   if (zeroY) {c.label("zero-observations(J^T Y = 0)");}
   if (nProblems > 1) {c.label("solver-reused");}
+  if (anyHandOver) {c.label("covariance-read-after-copy-or-move");}
   static const char * pn[] = {"svd-path", "cholesky-path", "weighted-path"};
   for (const auto & pr : probs) {c.label(pn[pr.path]);}
   c.commit();
@@ -361,7 +369,17 @@ void lsCovariance(vf::Ctx & c)
       ls.setPreconditionner(Mat(Mat::Identity(p, p)), Vec(Vec::Zero(p)));
     }
     if (pr.path == 0) {ls.estimateUsingSVD();} else if (pr.path == 1) {ls.estimateUsingCholeskyDecomposition();} else {ls.weightedEstimate();}
-    Mat cov = ls.computeEstimateCovariance(static_cast<S>(pr.var));
+    Mat cov;
+    if (pr.handOver == 0) {
+      cov = ls.computeEstimateCovariance(static_cast<S>(pr.var));
+    } else if (pr.handOver == 1) {
+      LeastSquares<S> copy(ls);                         // value semantics: a copy of a solved solver knows its covariance
+      cov = copy.computeEstimateCovariance(static_cast<S>(pr.var));
+    } else {
+      LeastSquares<S> other(std::move(ls));             // e.g. push_back into a vector, return by value
+      cov = other.computeEstimateCovariance(static_cast<S>(pr.var));
+      ls = std::move(other);                            // and back, so that the history continues on the same state
+    }
 
     // reference: var * A (Jw^T Jw)^-1 A in double, from the S-typed inputs
     Eigen::MatrixXd Jw = J.template cast<S>().template cast<double>();
